@@ -8,4 +8,8 @@ let after p s = String.sub s (String.length p) (String.length s - String.length 
 let parse_ext (id : string) (first : unit -> stack) (next : unit -> stack) (close : unit -> unit) : stack =
   if id = "ro" then (let a = first () in close (); SReadOnly a)
   else if starts_with "bp:" id then (let a = first () in close (); SBasePath (bytes_of_hex (after "bp:" id), a))
+  else if starts_with "re:" id then (let a = first () in close (); SRegexp (nat_of_int (int_of_string (after "re:" id)), a))
+  else if id = "cow" then (let a = first () in let b = next () in close (); SCow (a, b))
+  else if starts_with "cache:" id then
+    (let a = first () in let b = next () in close (); SCache (z_of_int (int_of_string (after "cache:" id)), a, b))
   else failwith ("unknown stack element " ^ id)
